@@ -204,7 +204,7 @@ Respond(entries, cutAfter, noMore) ==
         /\ LET chunk == Chunk(s, entries, cutAfter)
                s2 == AfterChunk(s, entries, cutAfter)
                more == s2.pos <= Len(s2.rows)
-               serverCloses == ~more
+               serverCloses == ~more \/ noMore     \* (a server that declares the scan finished closes the region scanner itself)
                \* update(): region exhausted -> forget the scanner id, move startRow to the next region
                id2 == IF more THEN curId ELSE 0
                start2 == IF more THEN startRow
